@@ -408,6 +408,36 @@ def c13_chains(tier, rnd, excs=("ZeroDivisionError",)):
     return progs
 
 
+def c13_metal(tier, rnd):
+    """tal:on-error on METAL elements: on a define-macro element it is part of the macro (used from another template or
+    rendered in place), on a fill-slot element it guards the filler; a failure inside the macro / the filler is
+    replaced by that element's fallback and nothing else"""
+    progs = []
+    d = [S("a"), EXC("ZeroDivisionError")]
+    for where in ("macro", "filler", "inplace", "macro+caller", "filler+macro"):
+        for fb in ("const", "err"):
+            al = Alloc(tier)
+            fbe = const(S("a")) if fb == "const" else errf("type")
+            oe = (False, fbe)
+            lib = [Open(dm="m1", name="div", sattr=["class"], oe=oe if where in ("macro", "macro+caller", "filler+macro") else None),
+                   Text("M", al.call("content", d)), Open(ds="s", name="i", sattr=[]), Text("D", al.call("content", d)), CLOSE,
+                   Text("n", al.call("content", d)), CLOSE]
+            fill = [Open(fs="s", name="b", sattr=["id"], oe=oe if where in ("filler", "filler+macro") else None),
+                    Text("F", al.call("content", d)), CLOSE]
+            use = [Open(um=("m1", 1, False), name="section", sattr=[]), Text("ign")] + fill + [CLOSE]
+            if where == "macro+caller":
+                use = [Open(name="p", oe=(False, const(S("b"))), sattr=[])] + use + [CLOSE]
+            if where == "inplace":
+                main = [Text("pre", al.call("content", d)),
+                        Open(dm="m2", name="div", sattr=["class"], oe=oe), Text("I", al.call("content", d)), CLOSE, Text("post", al.call("content", d))]
+            else:
+                main = [Text("pre", al.call("content", d))] + use + [Text("post", al.call("content", d))]
+            items = main + lib
+            progs.append(program(items, dict(al.dom), main=len(main), libs=[{"from": len(main) + 1, "to": len(items)}],
+                                 fam="C13.metal:%s:%s" % (where, fb)))
+    return progs
+
+
 # ------------------------------------------------------------------ C12
 EXC12 = ["KeyError", "ValueError", "ZeroDivisionError", "Custom2", "CustomStr", "RecursionError",
          "KeyboardInterrupt", "SystemExit", "Exception"]
@@ -1076,4 +1106,26 @@ def c10_family(tier, rnd):
             [Open(name="em", i18n={"d": "slotdom"}, sattr=[]), Open(ds="s", name="u", sattr=[]), Text("default"), CLOSE, CLOSE] + sites(al, 1) + [CLOSE, CLOSE]
         add(main + lib, al, "T6m:%s/%s/%s" % (sorted(a.items()), sorted(b.items()), sorted(f.items())), "identity", main=len(main),
             libs=[{"from": len(main) + 1, "to": len(main) + len(lib)}])
+    # T7: translations across the macro / filler boundary: a slot inside a translated element (or inside a named child)
+    # of the macro -- the filler's output is part of that message; a named child written inside a filler whose
+    # translation was opened in the caller around the use-macro
+    for variant in ("slot-in-translate", "slot-in-name", "name-in-filler"):
+        for v in variants:
+            al = Alloc(tier)
+            if variant == "name-in-filler":
+                main = [Open(name="div", tr="", sattr=[]), Text("Dear "), Open(um=("m1", 1, False), name="section", sattr=[]), Text("ign"),
+                        Open(fs="s", name="b", sattr=[]), Text("F "), Open(name="i", nm="who", sattr=[]), Text("N", al.call("content", vals)), CLOSE,
+                        CLOSE, CLOSE, Text(" bye"), CLOSE]
+                lib = [Open(dm="m1", name="em", sattr=[]), Text("M["), Open(ds="s", name="u", sattr=[]), Text("default"), CLOSE, Text("]"), CLOSE]
+            else:
+                main = [Text("pre"), Open(um=("m1", 1, False), name="section", sattr=[]), Text("ign"),
+                        Open(fs="s", name="b", sattr=[]), Text("F", al.call("content", vals)), CLOSE, CLOSE, Text("post")]
+                if variant == "slot-in-translate":
+                    lib = [Open(dm="m1", name="div", sattr=[]), Open(name="p", tr="", sattr=[]), Text("Hi "),
+                           Open(ds="s", name="u", sattr=[]), Text("default"), CLOSE, Text(" !"), CLOSE, CLOSE]
+                else:
+                    lib = [Open(dm="m1", name="div", sattr=[]), Open(name="p", tr="", sattr=[]), Text("Hi "),
+                           Open(name="span", nm="n", sattr=[]), Open(ds="s", name="u", sattr=[]), Text("default"), CLOSE, CLOSE,
+                           Text(" !"), CLOSE, CLOSE]
+            add(main + lib, al, "T7:%s:%s" % (variant, v), v, main=len(main), libs=[{"from": len(main) + 1, "to": len(main) + len(lib)}])
     return progs
